@@ -1,16 +1,30 @@
-/- C02: the compile-correctness induction for the statement fragment
-     e ::= literal | symbol | (f e) | (do e ...) | (upscope e ...) | (def x e)
-   (see Compile/SeqCorrect.lean for the statement `Correct2`; cases in SeqCall / SeqDo / SeqDef). -/
-import JanetModel.Compile.SeqDef
+/- C02: the compile-correctness induction for the core fragment `TF G b`
+     e ::= literal | symbol | (f e ...) | (do e ...) | (upscope e ...) | (def x e) | (if e e [e])        (`if` when b = true)
+   (calls of global core functions with any number of operands).  The `if` case is a parameter (`IfCase`), discharged in
+   Compile/SeqIf.lean; with b = false the theorem is unconditional. -/
+import JanetModel.Compile.SeqCallN
+import JanetModel.Compile.SeqPush
 namespace JanetModel.Compile
 open JanetModel.Emit JanetModel.Lang JanetModel.Bytecode.Exec JanetModel.Gen.Bytecode
 
 section
 variable (p : Program) (f0 : Frame) (rest : List Frame) (V : Array Value) (P : List KConst)
 
-theorem ts_correct (hP : P.length < 65536)
+/-- what the `if` case has to deliver, given the induction hypothesis at the fuel of the sub-forms -/
+def IfCase (G : String → Prop) (b : Bool) (fuel : Nat) : Prop :=
+  ∀ (cnd tb : Expr) (els : List Expr) (pp : Pos), IsCall cnd → els.length ≤ 1 → TF G b cnd → TF G b tb → (∀ e, e ∈ els → TF G b e) →
+  ∀ (opts : Fopts) (c c' : CState) (slot : JSlot) (sc : Scope) (rs : List Scope) (pool : List KConst) (ps : List (List KConst))
+    (n : Nat) (cur : Pos) (env env' : Env) (s s' : SS) (v : Value),
+    opts.tail = false → opts.hint = none → c.scopes = sc :: rs → c.pools = pool :: ps → c.lim ≤ 240 → sc.top = false →
+    cValue (fuel + 1) opts (.form (.sym "if" :: cnd :: tb :: els) pp) c = some (slot, c') →
+    eval n cur env (.form (.sym "if" :: cnd :: tb :: els) pp) s = .ok (v, env') s' → EnvS G c.scopes env s.boxes.size sc.ra →
+    Correct2 p f0 rest V P G opts.drop c c' slot sc rs pool ps env env' s s' v
+
+theorem tf_correct (hP : P.length < 65536)
     (hK : ∀ i, i < P.length → (p.defs.getD f0.defIdx default).consts.getD i .nil = litOf V (P.getD i .nil))
-    (FF : FloatFacts) (G : String → Prop) : ∀ fuel, CorrectAt p f0 rest V P G (TS G) false fuel := by
+    (FF : FloatFacts) (G : String → Prop) (b w : Bool)
+    (IFC : b = true → w = true ∧ ∀ fuel, CorrectAt p f0 rest V P G (TF G b) w fuel → IfCase p f0 rest V P G b fuel) :
+    ∀ fuel, CorrectAt p f0 rest V P G (TF G b) w fuel := by
   intro fuel
   induction fuel with
   | zero =>
@@ -63,10 +77,10 @@ theorem ts_correct (hP : P.length < 65536)
           obtain ⟨⟨hv, he⟩, hss⟩ := hsem
           subst hv he hss
           exact Correct2.weaken p f0 rest V P _ (atom_local2 p f0 rest V P G c x _ u sc rs pool ps hs hp _ _ a hE hl1 hl2)
-    | call1 f a pp hf hna hG hTa =>
-      rw [cValue_call_o fuel opts ht hh f [a] pp c hf] at hc
+    | call f args pp hf hna hG hTa =>
+      rw [cValue_call_o fuel opts ht hh f args pp c hf] at hc
       obtain ⟨q, hq⟩ := curAt_eq c pp
-      cases hcc : cCall (cValue fuel) {} (.sym f) [a] (curAt c pp) with
+      cases hcc : cCall (cValue fuel) {} (.sym f) args (curAt c pp) with
       | none => rw [hcc] at hc; simp [fin] at hc
       | some res =>
         obtain ⟨slot0, cq⟩ := res
@@ -78,11 +92,11 @@ theorem ts_correct (hP : P.length < 65536)
           rcases hE.2 f with ⟨_, h⟩ | ⟨sl, r, a', u, h, _⟩
           · exact h
           · rw [hE.1 f hG] at h; exact absurd h (by simp)
-        obtain ⟨n2, va, s_a, hn, hsa, happ⟩ := eval_call1_inv2 n cur env env' f a pp s s' v hf hgl hTa.notSplice hsem
+        obtain ⟨n2, vs, s_a, hn, hsa, happ⟩ := eval_callN_inv n cur env env' f args pp s s' v hf hgl hsem
         rw [hq] at hcc
         exact Correct2.recur p f0 rest V P (q := q) (Correct2.weaken p f0 rest V P _
-          (call1_core p f0 rest V P hP hK FF G (TS G) false fuel ih f a hna hG hTa { c with cur := q } cq slot0 sc rs pool ps n2 (posOf cur pp) env env'
-            s s_a s' va v hs hp hl htop hcc hsa happ hE))
+          (callN_core p f0 rest V P hP hK (pushN p f0 rest V P hP hK) FF G (TF G b) w fuel ih (fun a h => h.notSplice) f args hna hG hTa
+            { c with cur := q } cq slot0 sc rs pool ps n2 (posOf cur pp) env env' s s_a s' vs v hs hp hl htop hcc hsa happ hE))
     | doo body pp hT =>
       rw [cValue_do_o fuel opts ht hh body pp c] at hc
       obtain ⟨q, hq⟩ := curAt_eq c pp
@@ -98,7 +112,7 @@ theorem ts_correct (hP : P.length < 65536)
         subst henv
         rw [hq] at hcc
         exact Correct2.recur p f0 rest V P (q := q)
-          (do_core p f0 rest V P G (TS G) false fuel ih body hT opts { c with cur := q } cq slot0 sc rs pool ps n2 (posOf cur pp) env' envb s s' v
+          (do_core p f0 rest V P G (TF G b) w fuel ih body hT opts { c with cur := q } cq slot0 sc rs pool ps n2 (posOf cur pp) env' envb s s' v
             ht hh hs hp hl hcc hseq hE)
     | ups body pp hT =>
       rw [cValue_upscope_o fuel opts ht hh body pp c] at hc
@@ -117,7 +131,7 @@ theorem ts_correct (hP : P.length < 65536)
           rw [eval_upscope] at hsem
           rw [hq] at hcc
           exact Correct2.recur p f0 rest V P (q := q)
-            (doBody_correct p f0 rest V P G (TS G) false fuel ih body hT opts { c with cur := q } cq slot0 sc rs pool ps n2 (posOf cur pp) env env' s s' v
+            (doBody_correct p f0 rest V P G (TF G b) w fuel ih body hT opts { c with cur := q } cq slot0 sc rs pool ps n2 (posOf cur pp) env env' s s' v
               ht hh hs hp hl htop hcc hsem hE)
     | deff x ve pp hGx hTv =>
       rw [cValue_def_o fuel opts ht hh x ve pp c] at hc
@@ -134,20 +148,26 @@ theorem ts_correct (hP : P.length < 65536)
         subst henv hs'
         rw [hq] at hcc
         exact Correct2.recur p f0 rest V P (q := q) (Correct2.weaken p f0 rest V P _
-          (def_core p f0 rest V P hP hK G (TS G) false fuel ih x ve hGx hTv { c with cur := q } cq slot0 sc rs pool ps n2 (posOf cur pp) env env1 s s1 v
+          (def_core p f0 rest V P hP hK G (TF G b) w fuel ih x ve hGx hTv { c with cur := q } cq slot0 sc rs pool ps n2 (posOf cur pp) env env1 s s1 v
             hs hp hl htop hcc hev hE))
+    | iff cnd tb els pp hb hic hlen hTc hTt hTe =>
+      obtain ⟨hw, H⟩ := IFC hb
+      have := H fuel ih cnd tb els pp hic hlen hTc hTt hTe opts c c' slot sc rs pool ps n cur env env' s s' v ht hh hs hp hl htop hc hsem hE
+      rw [hw, Bool.and_true]
+      exact this
 
-/-- for the statement fragment the value is in the result slot also when the form is compiled with the drop flag -/
-theorem ts_correct_strong (hP : P.length < 65536)
+/-- the fragment without `if`: unconditional, and the value is in the result slot also under the drop flag -/
+theorem tf_correct_calls (hP : P.length < 65536)
     (hK : ∀ i, i < P.length → (p.defs.getD f0.defIdx default).consts.getD i .nil = litOf V (P.getD i .nil))
     (FF : FloatFacts) (G : String → Prop) (fuel : Nat)
     (e : Expr) (opts : Fopts) (c c' : CState) (slot : JSlot) (sc : Scope) (rs : List Scope) (pool : List KConst) (ps : List (List KConst))
     (n : Nat) (cur : Pos) (env env' : Env) (s s' : SS) (v : Value)
     (ht : opts.tail = false) (hh : opts.hint = none) (hs : c.scopes = sc :: rs) (hp : c.pools = pool :: ps) (hl : c.lim ≤ 240) (htop : sc.top = false)
-    (hT : TS G e) (hc : cValue fuel opts e c = some (slot, c')) (hsem : eval n cur env e s = .ok (v, env') s')
+    (hT : TF G false e) (hc : cValue fuel opts e c = some (slot, c')) (hsem : eval n cur env e s = .ok (v, env') s')
     (hE : EnvS G c.scopes env s.boxes.size sc.ra) :
     Correct2 p f0 rest V P G false c c' slot sc rs pool ps env env' s s' v := by
-  have h := ts_correct p f0 rest V P hP hK FF G fuel e opts c c' slot sc rs pool ps n cur env env' s s' v ht hh hs hp hl htop hT hc hsem hE
+  have h := tf_correct p f0 rest V P hP hK FF G false false (fun h => absurd h (by simp)) fuel e opts c c' slot sc rs pool ps n cur env env' s s' v
+    ht hh hs hp hl htop hT hc hsem hE
   rw [Bool.and_false] at h
   exact h
 
